@@ -31,6 +31,7 @@ import forml
 from forml import application, io
 from forml.io import layout
 from forml.provider.gateway import rest
+from forml.provider.inventory import posix as posixinv
 from forml.provider.registry.filesystem import posix
 from forml.runtime import _service
 
@@ -170,6 +171,9 @@ def gen_cfg(seed: int, faulty: typing.Optional[bool] = None) -> dict:
         if faulty and not req['fail'] and req.get('cancel') is None and not req.get('hangup') and 'prid' not in req \
                 and web.random() < float(os.environ.get('C16_OVERFLOW', 0.03)):
             req['fail'] = 'overflow'
+    # the inventory: the in-memory stub or the real posix inventory (descriptor modules loaded by forml's component
+    # loader on the wrapper's thread pool)
+    inventory = 'posix' if web.random() < float(os.environ.get('C16_POSIX', 0.35)) else 'memory'
     # applications deployed while serving: the inventory grows under the wrapper's descriptor discovery
     if not burst and not storm and web.random() < 0.25:
         for app in apps:
@@ -187,7 +191,7 @@ def gen_cfg(seed: int, faulty: typing.Optional[bool] = None) -> dict:
             if rng.random() < 0.5:
                 faults[kind] = p
     return {
-        'seed': seed, 'faulty': faulty, 'front': front, 'apps': apps, 'requests': requests, 'commits': commits,
+        'seed': seed, 'faulty': faulty, 'front': front, 'inventory': inventory, 'apps': apps, 'requests': requests, 'commits': commits,
         'processes': rng.randint(3, 4) if storm else rng.randint(1, 4),
         'kernel': {'policy': 'random' if storm else rng.choice(['random', 'random', 'pct']),
                    'preempt_p': rng.choice([0.1, 0.3]) if storm else rng.choice([0.02, 0.1, 0.3, 0.6]),
@@ -210,6 +214,30 @@ def make_selector(app: dict) -> application.Selector:
         builder = builder.over(var['generation'], release=var['release'], target=var['target'])
     last = rest[-1]
     return builder.against(last['generation'], release=last['release'], target=last['target'])
+
+
+def descriptor_source(app: dict) -> str:
+    """The application descriptor as the module file a posix inventory holds."""
+    if app['kind'] == 'latest':
+        selector = f"application.Latest(project={app['project']!r}, refresh={app['refresh']!r})"
+    elif app['kind'] == 'explicit':
+        selector = f"application.Explicit({app['project']!r}, {app['release']!r}, {app['generation']!r})"
+    else:
+        first, *rest = app['variants']
+        selector = (f"application.ABTest.compare({app['project']!r}, {first['release']!r}, {first['generation']!r}, "
+                    f"{first['target']!r})")
+        for var in rest[:-1]:
+            selector += f".over({var['generation']!r}, release={var['release']!r}, target={var['target']!r})"
+        last = rest[-1]
+        selector += f".against({last['generation']!r}, release={last['release']!r}, target={last['target']!r})"
+    return f"from forml import application\n\napplication.setup(application.Generic({app['name']!r}, {selector}))\n"
+
+
+def deploy_file(invdir: pathlib.Path, app: dict) -> None:
+    invdir.mkdir(parents=True, exist_ok=True)
+    aside = invdir / f'.{app["name"]}.tmp'
+    aside.write_text(descriptor_source(app))
+    os.replace(aside, invdir / f'{app["name"]}.py')
 
 
 def make_request(req: dict) -> layout.Request:
@@ -272,8 +300,16 @@ def simulate(cfg: dict, schedule: typing.Optional[list] = None) -> dict:
     else:
         registry = posix.Registry(template / 'registry', staging=template / 'staging')
     committed: list = []  # (virtual time, project, generation, state value)
-    inventory = serving.Inventory([application.Generic(a['name'], make_selector(a)) for a in cfg['apps']
-                                   if a.get('deploy_at') is None])
+    invdir = None
+    if cfg.get('inventory') == 'posix':
+        invdir = pathlib.Path(tempfile.mkdtemp(prefix='c16-inv-', dir=serving.scratch_parent()))
+        for app in cfg['apps']:
+            if app.get('deploy_at') is None:
+                deploy_file(invdir / 'inventory', app)
+        inventory = posixinv.Inventory(invdir / 'inventory')
+    else:
+        inventory = serving.Inventory([application.Generic(a['name'], make_selector(a)) for a in cfg['apps']
+                                       if a.get('deploy_at') is None])
     deployed: dict = {}  # application name -> virtual time at which its descriptor was in the inventory
     serving.DELAYS.clear()
     serving.DELAYS.update({r['rid']: r['delay'] for r in cfg['requests'] if r['delay']})
@@ -378,7 +414,10 @@ def simulate(cfg: dict, schedule: typing.Optional[list] = None) -> dict:
             for app in sorted((a for a in cfg['apps'] if a.get('deploy_at') is not None), key=lambda a: a['deploy_at']):
                 if app['deploy_at'] > kernel.now:
                     kernel.sleep(app['deploy_at'] - kernel.now, 'deployer.wait')
-                inventory.deploy(application.Generic(app['name'], make_selector(app)))
+                if invdir is not None:
+                    deploy_file(invdir / 'inventory', app)
+                else:
+                    inventory.deploy(application.Generic(app['name'], make_selector(app)))
                 deployed[app['name']] = kernel.now
                 kernel.note('deployed', app['name'])
                 kernel.stats['fault:application-deployed-while-serving'] += 1
@@ -416,6 +455,8 @@ def simulate(cfg: dict, schedule: typing.Optional[list] = None) -> dict:
     finally:
         if rundir:
             shutil.rmtree(rundir, ignore_errors=True)
+        if invdir:
+            shutil.rmtree(invdir, ignore_errors=True)
     return {'deployed': deployed, 'committed': committed, 'stalled': sum(kernel.stalled.values()), 'records': records, 'outcome': outcome, 'pending': state['pending'], 'steps': kernel.step,
             'vtime': kernel.now, 'switches': kernel.switches, 'stats': dict(kernel.stats),
             'probes': dict(kernel.probes), 'digest': kernel.digest(), 'decisions': kernel.decisions,
@@ -778,7 +819,7 @@ def main(argv: list[str]) -> int:
         'stubbed_components': ['OS processes and threads (kernel tasks; spawn = ForkingPickler copy, fork = deep copy)',
                                'multiprocessing.Manager queues/events (pickle every item)',
                                'ThreadPoolExecutor/ProcessPoolExecutor (process flavour pickles call and result)',
-                               'asyncio event loop (virtual time)', 'clock', 'inventory (in-memory)',
+                               'asyncio event loop (virtual time)', 'clock', 'inventory (in-memory in about two thirds of the runs; the real posix inventory and forml\'s component loader in the others)',
                                'uvicorn (the gateway\'s server= seam hands the ASGI application to simulated HTTP clients)'],
         'sweep_completed': exhausted, 'harness_errors': len(errors),
     }
